@@ -23,11 +23,22 @@ func c14Gen(r *Rng) c14Prog {
 	tick := func() string { tickN++; return fmt.Sprintf("{{ tick(%d) }}", tickN) }
 	var piece func(depth int) string
 	piece = func(depth int) string {
-		k := r.Intn(12)
+		k := r.Intn(13)
 		if depth <= 0 && k > 2 {
 			k = r.Intn(3)
 		}
 		switch k {
+		case 12:
+			// grouping on two (three) levels with argument-less ifchanged tags nested in each other
+			switch r.Intn(3) {
+			case 0:
+				return "{% for p in pairs %}{% ifchanged %}{{ p.0 }}{% ifchanged %}{{ p.1 }}{% endifchanged %}-{% endifchanged %}{% endfor %}" + tick()
+			case 1:
+				// a listing grouped on two levels: the outer tag suppresses a group whose rendered cells did not change,
+				// the inner one a cell that repeats the previous cell
+				return "{% for g in groups %}{% ifchanged %}{% for c in g.cells %}{% ifchanged %}{{ c }}{% endifchanged %}{% endfor %}{% endifchanged %}{{ g.sep }}{% endfor %}" + tick()
+			}
+			return "{% for p in pairs %}{% ifchanged %}<{% ifchanged %}{{ p.0 }}{% ifchanged %}{{ p.1 }}" + tick() + "{% endifchanged %}.{% endifchanged %}{{ p.2 }}>{% endifchanged %}{% endfor %}"
 		case 0:
 			return r.Pick([]string{"text ", "<p>", "\n", "é ", "0123456789", strings.Repeat("long text ", 50)})
 		case 1, 2:
@@ -81,6 +92,15 @@ func c14Gen(r *Rng) c14Prog {
 	return c14Prog{files: files}
 }
 
+var c14Pairs = [][]string{{"a", "x", "1"}, {"b", "y", "1"}, {"b", "y", "1"}, {"b", "c", "2"}, {"a", "c", "2"}, {"a", "c", "2"}, {"b", "c", "2"}, {"b", "x", "2"}, {"a", "x", "1"}, {"a", "x", "1"}, {"a", "y", "1"}, {"b", "y", "1"}}
+
+func c14Group(sep string, cells ...string) map[string]any {
+	return map[string]any{"cells": cells, "sep": sep}
+}
+
+var c14Groups = []map[string]any{c14Group("-", "a", "b"), c14Group("-", "a", "b"), c14Group("xb", "a", "b"), c14Group("-", "b", "c"), c14Group("-", "a", "c"), c14Group("", "a", "c"),
+	c14Group("cc", "a", "c"), c14Group("-", "c", "c", "a"), c14Group("-", "c", "a"), c14Group("ab", "c", "a"), c14Group("-", "a", "b"), c14Group("-")}
+
 type c14Ticker struct {
 	calls  int
 	failAt int // 0 = never
@@ -89,7 +109,7 @@ type c14Ticker struct {
 var errTick = errors.New("tick failed deliberately")
 
 func (t *c14Ticker) ctx() pongo2.Context {
-	return pongo2.Context{"two": []int{1, 2}, "yes": true, "incname": "/inc.tpl",
+	return pongo2.Context{"two": []int{1, 2}, "yes": true, "incname": "/inc.tpl", "pairs": c14Pairs, "groups": c14Groups,
 		"tick": func(i int) (string, error) {
 			t.calls++
 			if t.failAt > 0 && t.calls == t.failAt {
@@ -221,6 +241,16 @@ func c14Run(c *C) {
 		set, _ := newSet(p.files)
 		if tpl, err := set.FromFile("/main.tpl"); err == nil {
 			keptBytes, _ = tpl.ExecuteBytes((&c14Ticker{}).ctx())
+			// other pages are rendered meanwhile (other bytes, other lengths)
+			for _, other := range []string{strings.Repeat("#", len(F)+7), "short", strings.Repeat("{{ 1 }}%", len(F)/4+3)} {
+				if ot, oerr := set.FromString(other); oerr == nil {
+					ot.Execute(nil)
+					ot.ExecuteBytes(nil)
+					var sink bytes.Buffer
+					ot.ExecuteWriter(nil, &sink)
+				}
+			}
+			c.Eval(9)
 		}
 	}
 	// number of tick calls of a fault-free run
